@@ -47,6 +47,8 @@ def _pack(data, object_list):
         raise NotImplementedError("absolute time")
     elif isinstance(data, int):
         size_hint = getattr(data, "size", None)  # if created with _sized_int()
+        if data < -1:
+            raise ValueError(f"integer {data} cannot be represented")
         if data < 0x28 and not size_hint:
             packed_bytes = bytes([data + 8])
         elif (data <= 0xFF and not size_hint) or size_hint == 1:
@@ -113,6 +115,10 @@ def _pack(data, object_list):
     else:
         raise TypeError(str(type(data)))
 
+    # Containers and single byte objects are never referred to by pointers
+    if isinstance(data, (list, dict)) or len(packed_bytes) == 1:
+        return packed_bytes
+
     # Reuse if in object list, otherwise add it to list
     if packed_bytes in object_list:
         object_index = object_list.index(packed_bytes)
@@ -126,7 +132,7 @@ def _pack(data, object_list):
             packed_bytes = bytes([0xC3]) + object_index.to_bytes(4, byteorder="little")
         elif object_index <= 0xFFFFFFFFFFFFFFFF:
             packed_bytes = bytes([0xC4]) + object_index.to_bytes(8, byteorder="little")
-    elif len(packed_bytes) > 1:
+    else:
         object_list.append(packed_bytes)
 
     return packed_bytes
@@ -156,7 +162,7 @@ def _unpack(data, object_list):
     elif data[0] == 0x06:
         # TODO: Dummy implementation: only parse as integer
         value, remaining = int.from_bytes(data[1:9], byteorder="little"), data[9:]
-    elif 0x08 <= data[0] <= 0x2F:
+    elif 0x07 <= data[0] <= 0x2F:
         value, remaining = data[0] - 8, data[1:]
         add_to_object_list = False
     elif data[0] == 0x35:
@@ -224,18 +230,24 @@ def _unpack(data, object_list):
         value, remaining = output, ptr
         add_to_object_list = False
     elif 0xA0 <= data[0] <= 0xC0:
-        value, remaining = object_list[data[0] - 0xA0], data[1:]
+        value, remaining = object_list[data[0] - 0xA0][1], data[1:]
+        add_to_object_list = False
     elif 0xC1 <= data[0] <= 0xC4:
         length = data[0] - 0xC0
         uid, remaining = (
             int.from_bytes(data[1 : 1 + length], byteorder="little"),
             data[1 + length :],
         )
-        value = object_list[uid]
+        value = object_list[uid][1]
+        add_to_object_list = False
     else:
         raise TypeError(hex(data[0]))
 
-    if add_to_object_list and value not in object_list:
-        object_list.append(value)
+    # The object list mirrors the one built when packing: every new object encoded
+    # with more than one byte (compared by its encoding), except for containers
+    if add_to_object_list:
+        encoded = bytes(data[: len(data) - len(remaining)])
+        if len(encoded) > 1 and all(encoded != obj[0] for obj in object_list):
+            object_list.append((encoded, value))
 
     return value, remaining
